@@ -1003,6 +1003,7 @@ class World:
         body_start = out.pos()
         inner_labels = []
         ghost_spans = []
+        guards_left = 0
         if bodiless:
             out.w(';\n')
         elif ext:
@@ -1014,6 +1015,7 @@ class World:
             out.w('\n')
             inner_labels = [(lab, base + s, base + e) for lab, s, e in inner]
             ghost_spans = [[base + a, base + b] for a, b in self._ghost]
+            guards_left = getattr(self, '_guards_left', 0)
         end_fn = out.pos()
         mname = re.search(r'\bfn\s+(\w+)', head)
         out_name = mname.group(1) if mname else cname.split('::')[-1]
@@ -1027,6 +1029,7 @@ class World:
             'labels': [{'label': l, 'span': [s, e]} for l, s, e in label_spans],
             'inner_labels': [{'label': l, 'span': [s, e]} for l, s, e in inner_labels],
             'ghost_spans': ghost_spans,
+            'guards_left': guards_left,
             'contract': os.path.relpath(c.origin, VERIF),
             'dropped_hints': self.dropped_hints.get(cname, []),
         })
@@ -1134,8 +1137,13 @@ class World:
         # R10 match guards followed by a final wildcard arm: `P if G => A, _ => B`  ->  `P => { if G { A } else { B } }, _ => B`.
         # Same evaluation order and values; needed because Verus does not resolve `&mut` borrows on the path where
         # a guard fails and the wildcard arm leaves the function (a postcondition about final(..) then fails spuriously).
+        guards_left = 0
         for mt in it.get('matches', []):
             arms = mt['arms']
+            for k in range(len(arms)):
+                a = arms[k]
+                if a['guard'] and not (k + 1 == len(arms) - 1 and arms[k + 1]['wild'] and not arms[k + 1]['guard']):
+                    guards_left += 1
             for k in range(len(arms) - 1):
                 a, b = arms[k], arms[k + 1]
                 if a['guard'] and k + 1 == len(arms) - 1 and b['wild'] and not b['guard']:
@@ -1145,6 +1153,7 @@ class World:
                     edits.append((a['body'][0], a['body'][0], ('{ if ' + g_txt + ' { ').encode()))
                     edits.append((a['body'][1], a['body'][1], (' } else { ' + b_txt + ' } }').encode()))
                     self.counters['R10'] = self.counters.get('R10', 0) + 1
+        self._guards_left = guards_left
         # R3 format!
         for mc in it['macros']:
             if mc['name'] == 'format' and mc['first_lit']:
